@@ -467,8 +467,8 @@ package types
 //@   ensures  wfValSet(valSet)
 //@   invariant-assumed sortedVS(valSet)
 //@   let n0 = old(len(valSet.Validators))
-//@   ensures  [insert-position] added ==> 0 <= idx && idx <= n0 && forall(j, 0, idx, bytesCmp(old(valSet.Validators[j].Address), val.Address) < 0) && forall(j, idx, n0, bytesCmp(val.Address, old(valSet.Validators[j].Address)) < 0)
-//@   ensures  [insert-shifts] added ==> forall(j, 0, idx, valSet.Validators[j] == old(valSet.Validators[j])) && forall(j, idx + 1, n0 + 1, valSet.Validators[j] == old(valSet.Validators[j-1])) && valSet.Validators[idx].Address == val.Address
+//@   check    [insert-position] added ==> 0 <= idx && idx <= n0 && forall(j, 0, idx, bytesCmp(old(valSet.Validators[j].Address), val.Address) < 0) && forall(j, idx, n0, bytesCmp(val.Address, old(valSet.Validators[j].Address)) < 0)
+//@   check    [insert-shifts] added ==> forall(j, 0, idx, valSet.Validators[j] == old(valSet.Validators[j])) && forall(j, idx + 1, n0 + 1, valSet.Validators[j] == old(valSet.Validators[j-1])) && valSet.Validators[idx].Address == val.Address
 //@   ensures  [stays-sorted-and-duplicate-free] sortedVS(valSet)
 //@   ensures  [added-iff-address-absent] added == !old(exists(j, 0, len(valSet.Validators), bytesEq(valSet.Validators[j].Address, val.Address)))
 //@   ensures  [added-is-a-private-copy] added ==> exists(m, 0, len(valSet.Validators), fresh(valSet.Validators[m]) && bytesEq(valSet.Validators[m].Address, val.Address) && valSet.Validators[m].VotingPower == val.VotingPower && valSet.Validators[m].Accum == val.Accum)
